@@ -55,3 +55,23 @@ __CPROVER_ensures(g_qr_n == 1 && g_qr_q == pq && g_qr_p == page)
 __CPROVER_ensures(g_spa_n == 1 && g_spa_p == page && g_spa_tld == &g_ftld->segments && g_spa_after_remove == 1 && g_spa_xheap == 0)
 __CPROVER_ensures(page->xheap == 0 && g_spf_n == 0 && page->used == __CPROVER_old(page->used));
 #endif
+
+#ifdef VC_CBMC
+/* ---- _mi_heap_collect_retired: retired pages are found again.  The walk over bins [page_retired_min, page_retired_max] has a loop contract; the
+   harness installs ONE retired candidate page at the witness bin g_bin (assigned pointer) and leaves every other queue empty: the bins do not
+   interact except through the min/max bookkeeping, which the invariant tracks for the witness bin. ---- */
+uint8_t g_rex0; bool g_allfree;    /* logical: the witness page's retire_expire before the call; are all its blocks free? */
+#define VC_WPAGE_IN_RANGE (g_rmin0 <= g_bin && g_bin <= g_rmax0)
+void _mi_heap_collect_retired(mi_heap_t* heap, bool force)
+__CPROVER_requires(heap == g_fheap && g_pf_n == 0 && heap->page_retired_min == g_rmin0 && heap->page_retired_max == g_rmax0 && g_rmax0 <= MI_BIN_FULL && g_bin <= MI_BIN_FULL)
+__CPROVER_requires(heap->pages[g_bin].first == g_fpage && g_fpage->retire_expire == g_rex0 && !g_allfree == !(g_fpage->used == 0))
+__CPROVER_assigns(__CPROVER_object_whole(g_fpage), heap->page_retired_min, heap->page_retired_max, g_pf_n, g_pf_p, g_pf_q, g_pf_force)
+/* a retired page inside the scanned range whose blocks are all free: freed when forced or when its count-down ends; otherwise it stays retired,
+   counted down by one, and stays inside the range that the next call scans */
+__CPROVER_ensures((VC_WPAGE_IN_RANGE && g_rex0 != 0 && g_allfree && (force || g_rex0 == 1)) ==> (g_pf_n == 1 && g_pf_p == g_fpage && g_pf_q == &heap->pages[g_bin] && !g_pf_force == !force))
+__CPROVER_ensures((VC_WPAGE_IN_RANGE && g_rex0 != 0 && g_allfree && !(force || g_rex0 == 1)) ==> (g_pf_n == 0 && g_fpage->retire_expire == g_rex0 - 1 &&
+                   heap->page_retired_min <= g_bin && g_bin <= heap->page_retired_max))
+/* a page that got a new live block is no longer retired and is never freed here */
+__CPROVER_ensures((VC_WPAGE_IN_RANGE && g_rex0 != 0 && !g_allfree) ==> (g_pf_n == 0 && g_fpage->retire_expire == 0))
+__CPROVER_ensures((!VC_WPAGE_IN_RANGE || g_rex0 == 0) ==> (g_pf_n == 0 && g_fpage->retire_expire == g_rex0));
+#endif
